@@ -1,7 +1,836 @@
-//! C16 — not built yet.
-use vp_common::Cli;
+//! C16 — one stalled or hostile client never delays another.
+//!
+//! Fault enumeration over real loopback TCP: for every stall point (before / inside / right after
+//! the PROXY header, mid-frame and between frames of the handshake, status, login and configuration
+//! phases) K stallers are put in place against a listener of their own and HELD for 12 s. While
+//! they are held, well-behaved probe clients perform a status exchange: one right after the
+//! stallers are in place, one while further stallers keep arriving. The oracle is the probe's
+//! latency: the exchange must complete within 3 s of the probe's `connect()`. A probe that is only
+//! served once the stallers let go is the unmistakable shape of the defect. A control probe before
+//! any staller exists separates "the listener does not work" (inconclusive) from "stallers delay
+//! others" (violation); harness starvation above half the bound voids the verdict.
+
+use crate::tcp::{self, TcpEnd};
+use crate::util::*;
+use serde::{Deserialize, Serialize};
+use serde_json::{Value, json};
+use std::net::SocketAddr;
+use std::sync::atomic::{AtomicBool, Ordering};
+use std::sync::{Arc, Mutex};
+use std::time::{Duration, Instant};
+use tokio::task::JoinHandle;
+use vp_common::refcodec::Pkt;
+use vp_common::{Cli, Report, Rng, Tier};
+use vp_sim::client::{Act, Client, ClientLog, Echo, Transport};
+use vp_sim::scripts::{self, Ident};
+
+/// a well-behaved client must be served within this bound whatever the others do
+const BOUND: Duration = Duration::from_secs(3);
+/// stallers are held this long (≫ BOUND) unless the case says otherwise
+const HOLD_MS: u64 = 12_000;
+/// server-side connection deadline: far beyond the hold, so the server never releases a staller
+const SERVER_TIMEOUT: Duration = Duration::from_secs(30);
+
+// ---------------------------------------------------------------------------------------------
+// scheduler lateness, windowed (OS threads and the harness runtime)
+
+#[derive(Clone)]
+pub(crate) struct LateLog {
+    events: Arc<Mutex<Vec<(Instant, Duration)>>>,
+    stop: Arc<AtomicBool>,
+}
+
+impl LateLog {
+    /// ticks every 5 ms on an OS thread and on the harness runtime; records ticks later than `above`
+    pub(crate) fn start(above: Duration) -> LateLog {
+        let l = LateLog { events: Arc::new(Mutex::new(vec![])), stop: Arc::new(AtomicBool::new(false)) };
+        let tick = Duration::from_millis(5);
+        {
+            let l = l.clone();
+            std::thread::spawn(move || {
+                while !l.stop.load(Ordering::Relaxed) {
+                    let t = Instant::now();
+                    std::thread::sleep(tick);
+                    let late = t.elapsed().saturating_sub(tick);
+                    if late > above {
+                        l.events.lock().unwrap_or_else(|e| e.into_inner()).push((t, late));
+                    }
+                }
+            });
+        }
+        {
+            let l = l.clone();
+            tokio::spawn(async move {
+                while !l.stop.load(Ordering::Relaxed) {
+                    let t = Instant::now();
+                    tokio::time::sleep(tick).await;
+                    let late = t.elapsed().saturating_sub(tick);
+                    if late > above {
+                        l.events.lock().unwrap_or_else(|e| e.into_inner()).push((t, late));
+                    }
+                }
+            });
+        }
+        l
+    }
+    /// worst lateness of a tick that overlapped [a, b]
+    pub(crate) fn worst_between(&self, a: Instant, b: Instant) -> Duration {
+        let g = self.events.lock().unwrap_or_else(|e| e.into_inner());
+        g.iter().filter(|(t, late)| *t <= b && *t + *late + Duration::from_millis(5) >= a).map(|(_, l)| *l).max().unwrap_or(Duration::ZERO)
+    }
+    pub(crate) fn worst(&self) -> Duration {
+        let g = self.events.lock().unwrap_or_else(|e| e.into_inner());
+        g.iter().map(|(_, l)| *l).max().unwrap_or(Duration::ZERO)
+    }
+}
+
+// ---------------------------------------------------------------------------------------------
+// cases
+
+#[derive(Clone, Debug, Serialize, Deserialize, PartialEq)]
+enum Cut {
+    /// the first n bytes of the header
+    First(usize),
+    /// everything but the last n bytes
+    AllBut(usize),
+    Half,
+}
+
+impl Cut {
+    fn resolve(&self, len: usize) -> usize {
+        match self {
+            Cut::First(n) => (*n).clamp(1, len.saturating_sub(1).max(1)),
+            Cut::AllBut(n) => len.saturating_sub(*n).max(1),
+            Cut::Half => (len / 2).max(1),
+        }
+    }
+    fn label(&self) -> String {
+        match self {
+            Cut::First(n) => format!("first-{n}"),
+            Cut::AllBut(n) => format!("all-but-{n}"),
+            Cut::Half => "half".into(),
+        }
+    }
+}
+
+#[derive(Clone, Debug, Serialize, Deserialize, PartialEq)]
+enum Point {
+    /// connected, not one byte of the PROXY header sent
+    BeforeHeader,
+    /// a strict prefix of a valid PROXY header sent
+    InsideHeader { v2: bool, cut: Cut },
+    /// the header dripped byte by byte so slowly that it never completes while held
+    HeaderDrip { v2: bool, every_ms: u64 },
+    /// (complete header if PROXY is on,) no protocol byte
+    NothingSent,
+    HalfHandshake,
+    StatusAfterHandshake,
+    /// Handshake and the length byte of the Status Request
+    StatusHalfRequest,
+    /// Status Request answered, Ping never sent
+    StatusBeforePing,
+    LoginAfterHandshake,
+    HalfLoginStart,
+    /// Login Start sent, the Cookie Request that follows is never answered
+    AfterLoginStart,
+    /// everything up to the Encryption Request, no response
+    BeforeEncryptionResponse,
+    /// the first 100 bytes of an honest Encryption Response
+    InsideEncryptionResponse,
+    /// Login Success received, never acknowledged
+    AfterLoginSuccess,
+    /// logged in, waiting in the configuration phase on a backend that never answers; Keep Alives
+    /// are never echoed
+    ConfigNoKeepAliveEcho,
+}
+
+impl Point {
+    fn name(&self) -> String {
+        let v = |v2: &bool| if *v2 { "v2" } else { "v1" };
+        match self {
+            Point::BeforeHeader => "before-header".into(),
+            Point::InsideHeader { v2, cut } => format!("inside-header/{}-{}", v(v2), cut.label()),
+            Point::HeaderDrip { v2, every_ms } => format!("inside-header/{}-drip-{every_ms}ms", v(v2)),
+            Point::NothingSent => "handshake/nothing-sent".into(),
+            Point::HalfHandshake => "handshake/half-frame".into(),
+            Point::StatusAfterHandshake => "status/after-handshake".into(),
+            Point::StatusHalfRequest => "status/half-request-frame".into(),
+            Point::StatusBeforePing => "status/before-ping".into(),
+            Point::LoginAfterHandshake => "login/after-handshake".into(),
+            Point::HalfLoginStart => "login/half-login-start".into(),
+            Point::AfterLoginStart => "login/after-login-start".into(),
+            Point::BeforeEncryptionResponse => "login/before-encryption-response".into(),
+            Point::InsideEncryptionResponse => "login/inside-encryption-response".into(),
+            Point::AfterLoginSuccess => "configuration/login-success-unacknowledged".into(),
+            Point::ConfigNoKeepAliveEcho => "configuration/no-keep-alive-echo".into(),
+        }
+    }
+    /// the stall point class that goes into the violation signature
+    fn class(&self, proxy: bool) -> &'static str {
+        match self {
+            Point::BeforeHeader => "before-header",
+            Point::InsideHeader { .. } | Point::HeaderDrip { .. } => "inside-header",
+            Point::NothingSent => {
+                if proxy {
+                    "after-header"
+                } else {
+                    "before-handshake"
+                }
+            }
+            Point::HalfHandshake => "handshake",
+            Point::StatusAfterHandshake | Point::StatusHalfRequest | Point::StatusBeforePing => "status",
+            Point::LoginAfterHandshake | Point::HalfLoginStart | Point::AfterLoginStart | Point::BeforeEncryptionResponse | Point::InsideEncryptionResponse => "login",
+            Point::AfterLoginSuccess | Point::ConfigNoKeepAliveEcho => "configuration",
+        }
+    }
+    /// bytes a non-scripted staller sends after the header; None = the staller is a scripted client
+    fn raw_prefix(&self) -> Option<Vec<u8>> {
+        let hs = |next: i32| scripts::handshake(next, "stall.example.org", 25565, 770).frame();
+        let login_start = Pkt::LoginStart { name: "Staller".into(), uuid: 0x5741_4c4c }.frame();
+        Some(match self {
+            Point::NothingSent => vec![],
+            Point::HalfHandshake => {
+                let f = hs(1);
+                f[..f.len() / 2].to_vec()
+            }
+            Point::StatusAfterHandshake => hs(1),
+            Point::StatusHalfRequest => {
+                let mut b = hs(1);
+                b.push(Pkt::StatusRequest.frame()[0]);
+                b
+            }
+            Point::LoginAfterHandshake => hs(2),
+            Point::HalfLoginStart => {
+                let mut b = hs(2);
+                b.extend_from_slice(&login_start[..login_start.len() / 2]);
+                b
+            }
+            Point::AfterLoginStart => {
+                let mut b = hs(2);
+                b.extend_from_slice(&login_start);
+                b
+            }
+            _ => return None,
+        })
+    }
+    /// the script of a scripted staller
+    fn plan(&self, i: usize, life: Duration) -> vp_sim::client::ClientPlan {
+        let claimed = Ident { name: format!("Staller{i}"), uuid: 0x1000 + i as u128 };
+        let login = |keep: usize| {
+            let mut s = scripts::login_script(2, "stall.example.org", 25565, &claimed, "en_us");
+            s.truncate(keep);
+            if keep < 8 {
+                s.push(Act::AwaitClose);
+            }
+            s
+        };
+        let secret = [(i % 251) as u8 + 1; 16];
+        match self {
+            Point::StatusBeforePing => {
+                let mut s = scripts::status_script("stall.example.org", 25565, i as u64);
+                s.truncate(3);
+                s.push(Act::AwaitClose);
+                scripts::plan(s, true, secret, life)
+            }
+            Point::BeforeEncryptionResponse => scripts::plan(login(3), false, secret, life),
+            Point::InsideEncryptionResponse => {
+                let mut p = scripts::plan(login(4), false, secret, life);
+                // sends: 0 Handshake, 1 Login Start, 2 (session) Cookie Response, 3 Encryption Response;
+                // the pause inside the frame outlasts the case
+                p.seg.splits = vec![(3, vec![(100, Duration::from_secs(3600))])];
+                p
+            }
+            Point::AfterLoginSuccess => scripts::plan(login(5), false, secret, life),
+            _ => {
+                let mut p = scripts::plan(login(8), false, secret, life);
+                p.echo = Echo::Never;
+                p
+            }
+        }
+    }
+}
+
+#[derive(Clone, Debug, Serialize, Deserialize)]
+struct Case {
+    proxy: bool,
+    limiter: bool,
+    k: usize,
+    point: Point,
+    /// how long the stallers are held after they are in place
+    hold_ms: u64,
+    /// probes start at these offsets after the stallers are in place
+    probes_ms: Vec<u64>,
+    /// further stallers of the same kind: first arrival, spacing, count
+    arrivals_from_ms: u64,
+    arrivals_every_ms: u64,
+    arrivals: usize,
+    /// this case starts that long after its wave (spreads the load)
+    start_delay_ms: u64,
+    salt: u64,
+}
+
+impl Case {
+    fn key(&self) -> String {
+        format!("proxy-{}/limiter-{}/K{}/{}", onoff(self.proxy), onoff(self.limiter), self.k, self.point.name())
+    }
+}
+
+fn onoff(b: bool) -> &'static str {
+    if b { "on" } else { "off" }
+}
+
+fn staller_src(i: usize) -> SocketAddr {
+    format!("203.0.113.{}:{}", 100 + i % 100, 40000 + i % 20000).parse().expect("addr")
+}
+
+fn header_for(v2: bool, i: usize, dst: SocketAddr) -> Vec<u8> {
+    if v2 { tcp::proxy_v2(staller_src(i), dst) } else { tcp::proxy_v1(staller_src(i), dst) }
+}
+
+// ---------------------------------------------------------------------------------------------
+// stallers
+
+struct Staller {
+    end: Arc<TcpEnd>,
+    task: Option<JoinHandle<ClientLog>>,
+    stop: Arc<AtomicBool>,
+}
+
+async fn place(point: &Point, proxy: bool, addr: SocketAddr, i: usize, life: Duration) -> Result<Staller, String> {
+    let end = match tokio::time::timeout(Duration::from_secs(5), TcpEnd::connect(addr, None)).await {
+        Ok(Ok(e)) => Arc::new(e),
+        Ok(Err(e)) => return Err(format!("staller connect failed: {e}")),
+        Err(_) => return Err("staller connect took more than 5 s".into()),
+    };
+    let stop = Arc::new(AtomicBool::new(false));
+    let mut task = None;
+    match point {
+        Point::BeforeHeader => {}
+        Point::InsideHeader { v2, cut } => {
+            let h = header_for(*v2, i, addr);
+            end.send(&h[..cut.resolve(h.len())]);
+        }
+        Point::HeaderDrip { v2, every_ms } => {
+            let h = header_for(*v2, i, addr);
+            let (e, s, every) = (end.clone(), stop.clone(), Duration::from_millis(*every_ms));
+            tokio::spawn(async move {
+                // never sends the last byte
+                for b in &h[..h.len() - 1] {
+                    if s.load(Ordering::Relaxed) {
+                        return;
+                    }
+                    e.send(&[*b]);
+                    tokio::time::sleep(every).await;
+                }
+            });
+        }
+        _ => {
+            if proxy {
+                end.send(&header_for(i % 2 == 1, i, addr));
+            }
+            match point.raw_prefix() {
+                Some(bytes) => {
+                    if !bytes.is_empty() {
+                        end.send(&bytes);
+                    }
+                }
+                None => {
+                    let plan = point.plan(i, life);
+                    let e = end.clone();
+                    task = Some(tokio::spawn(async move { Client::new(&*e, plan).run().await }));
+                }
+            }
+        }
+    }
+    Ok(Staller { end, task, stop })
+}
+
+/// Lets go of a staller; returns the log of a scripted one if it ends promptly.
+async fn release(s: Staller) -> Option<ClientLog> {
+    s.stop.store(true, Ordering::Relaxed);
+    s.end.kill();
+    let mut task = s.task?;
+    match tokio::time::timeout(Duration::from_millis(500), &mut task).await {
+        Ok(Ok(log)) => Some(log),
+        Ok(Err(_)) => None,
+        Err(_) => {
+            task.abort();
+            None
+        }
+    }
+}
+
+// ---------------------------------------------------------------------------------------------
+// probes
+
+#[derive(Clone, Debug)]
+struct Probe {
+    label: String,
+    started: Instant,
+    connect_error: Option<String>,
+    connected: Option<Instant>,
+    response: Option<Instant>,
+    pong: Option<Instant>,
+    clientbound: Vec<&'static str>,
+}
+
+impl Probe {
+    fn served_within_bound(&self) -> bool {
+        self.pong.map(|p| p.duration_since(self.started) <= BOUND).unwrap_or(false)
+    }
+    fn latency(&self) -> Option<Duration> {
+        self.pong.map(|p| p.duration_since(self.started))
+    }
+    fn to_json(&self, placed: Instant, released: Option<Instant>) -> Value {
+        let ms = |t: Option<Instant>| t.map(|t| (t.duration_since(self.started).as_secs_f64() * 1000.0 * 10.0).round() / 10.0);
+        let rel = |t: Instant| {
+            if t >= placed { t.duration_since(placed).as_secs_f64() } else { -(placed.duration_since(t).as_secs_f64()) }
+        };
+        json!({
+            "probe": self.label,
+            "started_s_after_stallers_in_place": (rel(self.started) * 1000.0).round() / 1000.0,
+            "connect_error": self.connect_error,
+            "connected_after_ms": ms(self.connected),
+            "status_response_after_ms": ms(self.response),
+            "pong_after_ms": ms(self.pong),
+            "served_within_3s": self.served_within_bound(),
+            "pong_s_after_release": match (self.pong, released) { (Some(p), Some(r)) if p >= r => Some((p.duration_since(r).as_secs_f64() * 1000.0).round() / 1000.0), _ => None },
+            "clientbound": self.clientbound,
+        })
+    }
+}
+
+/// A well-behaved status exchange; gives up `patience` after it started.
+async fn probe(label: &str, addr: SocketAddr, proxy: bool, salt: u64, patience: Duration) -> Probe {
+    let started = Instant::now();
+    let mut p = Probe { label: label.to_string(), started, connect_error: None, connected: None, response: None, pong: None, clientbound: vec![] };
+    let end = match tokio::time::timeout(patience, TcpEnd::connect(addr, None)).await {
+        Ok(Ok(e)) => e,
+        Ok(Err(e)) => {
+            p.connect_error = Some(e.to_string());
+            return p;
+        }
+        Err(_) => {
+            p.connect_error = Some("connect() did not complete".into());
+            return p;
+        }
+    };
+    p.connected = Some(Instant::now());
+    if proxy {
+        let src: SocketAddr = format!("198.51.100.{}:{}", 1 + salt % 200, 50000 + salt % 10000).parse().expect("addr");
+        end.send(&if salt % 2 == 0 { tcp::proxy_v1(src, addr) } else { tcp::proxy_v2(src, addr) });
+    }
+    let c0 = Instant::now();
+    let plan = scripts::plan(scripts::status_script("probe.example.org", addr.port(), salt), true, [9u8; 16], patience.saturating_sub(started.elapsed()));
+    let log = Client::new(&end, plan).run().await;
+    end.kill();
+    p.response = log.first("StatusResponse").map(|r| c0 + Duration::from_nanos(r.t_ns));
+    p.pong = log.first("StatusPong").map(|r| c0 + Duration::from_nanos(r.t_ns));
+    p.clientbound = log.names();
+    p
+}
+
+// ---------------------------------------------------------------------------------------------
+// one case
+
+struct CaseOutcome {
+    case: Case,
+    inconclusive: Option<String>,
+    control: Option<Probe>,
+    probes: Vec<Probe>,
+    placed: Option<Instant>,
+    released: Option<Instant>,
+    stallers_placed: usize,
+    stallers_arrived_later: usize,
+    scripted_reached_stage: usize,
+    keep_alives_left_unanswered: usize,
+    settle_ms: u64,
+    /// fewest bytes any held staller had received from the server when it was released
+    staller_min_bytes_received: usize,
+    adapter_calls: std::collections::BTreeMap<&'static str, usize>,
+}
+
+impl CaseOutcome {
+    fn observed(&self) -> Value {
+        let placed = self.placed.unwrap_or_else(Instant::now);
+        json!({
+            "control_probe_before_any_staller": self.control.as_ref().map(|c| c.to_json(placed, None)),
+            "stallers_in_place": self.stallers_placed,
+            "stallers_arrived_while_held": self.stallers_arrived_later,
+            "scripted_stallers_that_reached_their_stage": self.scripted_reached_stage,
+            "keep_alives_left_unanswered": self.keep_alives_left_unanswered,
+            "settle_ms": self.settle_ms,
+            "fewest_bytes_a_staller_received": self.staller_min_bytes_received,
+            "server_side_adapter_calls": self.adapter_calls,
+            "stallers_released_s_after_in_place": match (self.placed, self.released) { (Some(p), Some(r)) => Some((r.duration_since(p).as_secs_f64() * 1000.0).round() / 1000.0), _ => None },
+            "probes": self.probes.iter().map(|p| p.to_json(placed, self.released)).collect::<Vec<_>>(),
+        })
+    }
+}
+
+static START: tokio::sync::Mutex<()> = tokio::sync::Mutex::const_new(());
+
+async fn run_case(case: Case) -> CaseOutcome {
+    tokio::time::sleep(Duration::from_millis(case.start_delay_ms)).await;
+    let mut out = CaseOutcome {
+        case: case.clone(),
+        inconclusive: None,
+        control: None,
+        probes: vec![],
+        placed: None,
+        released: None,
+        stallers_placed: 0,
+        stallers_arrived_later: 0,
+        scripted_reached_stage: 0,
+        keep_alives_left_unanswered: 0,
+        settle_ms: 0,
+        staller_min_bytes_received: 0,
+        adapter_calls: Default::default(),
+    };
+    let spec = DirectSpec {
+        timeout: SERVER_TIMEOUT,
+        limiter: case.limiter.then_some((Duration::from_secs(3600), 1_000_000)),
+        proxy: case.proxy.then_some((true, true)),
+        never_discovers: matches!(case.point, Point::ConfigNoKeepAliveEcho),
+        ..Default::default()
+    };
+    // listeners are started one at a time: two concurrent starts could pick the same free port
+    let direct = {
+        let _g = START.lock().await;
+        start_direct(spec).await
+    };
+    let addr = direct.addr;
+    let hold = Duration::from_millis(case.hold_ms);
+
+    // control: before any staller exists the listener must serve a probe, else nothing can be said
+    let control = probe("control", addr, case.proxy, case.salt, BOUND).await;
+    let control_ok = control.served_within_bound();
+    out.control = Some(control);
+    if !control_ok || direct.returned_at().is_some() {
+        out.inconclusive = Some("the listener did not serve the control probe before any staller existed".into());
+        direct.stop.cancel();
+        return out;
+    }
+
+    // put the stallers in place
+    let life = hold + Duration::from_secs(20);
+    let placed: Vec<Result<Staller, String>> = futures_util::future::join_all((0..case.k).map(|i| place(&case.point, case.proxy, addr, i, life))).await;
+    let mut stallers: Vec<Staller> = vec![];
+    for p in placed {
+        match p {
+            Ok(s) => stallers.push(s),
+            Err(e) => {
+                out.inconclusive = Some(e);
+            }
+        }
+    }
+    if out.inconclusive.is_some() {
+        for s in stallers {
+            release(s).await;
+        }
+        direct.stop.cancel();
+        return out;
+    }
+    // in place = nothing has arrived from the server for 300 ms (at most 5 s)
+    let settle_start = Instant::now();
+    let mut last = (usize::MAX, Instant::now());
+    loop {
+        let total: usize = stallers.iter().map(|s| s.end.bytes_received()).sum();
+        if total != last.0 {
+            last = (total, Instant::now());
+        }
+        if last.1.elapsed() >= Duration::from_millis(300) || settle_start.elapsed() >= Duration::from_secs(5) {
+            break;
+        }
+        tokio::time::sleep(Duration::from_millis(20)).await;
+    }
+    out.settle_ms = settle_start.elapsed().as_millis() as u64;
+    out.stallers_placed = stallers.len();
+    let placed_at = Instant::now();
+    out.placed = Some(placed_at);
+    let release_at = placed_at + hold;
+
+    // probes (each gives up 3 s after the stallers were released) and the stream of further stallers
+    let mut probe_tasks = vec![];
+    for (n, off) in case.probes_ms.iter().enumerate() {
+        let (proxy, salt, off) = (case.proxy, case.salt.wrapping_add(1 + n as u64), Duration::from_millis(*off));
+        probe_tasks.push(tokio::spawn(async move {
+            tokio::time::sleep_until((placed_at + off).into()).await;
+            let patience = (release_at + BOUND).saturating_duration_since(Instant::now());
+            probe(&format!("probe-{}", n + 1), addr, proxy, salt, patience).await
+        }));
+    }
+    let late_stallers: Arc<Mutex<Vec<Staller>>> = Arc::new(Mutex::new(vec![]));
+    let arrivals = {
+        let (case, late_stallers) = (case.clone(), late_stallers.clone());
+        tokio::spawn(async move {
+            for j in 0..case.arrivals {
+                let at = placed_at + Duration::from_millis(case.arrivals_from_ms + j as u64 * case.arrivals_every_ms);
+                if at >= release_at {
+                    break;
+                }
+                tokio::time::sleep_until(at.into()).await;
+                if let Ok(s) = place(&case.point, case.proxy, addr, case.k + j, life).await {
+                    late_stallers.lock().unwrap_or_else(|e| e.into_inner()).push(s);
+                }
+            }
+        })
+    };
+
+    tokio::time::sleep_until(release_at.into()).await;
+    arrivals.abort();
+    let _ = arrivals.await;
+    let listener_gone = direct.returned_at().is_some();
+    let late: Vec<Staller> = std::mem::take(&mut *late_stallers.lock().unwrap_or_else(|e| e.into_inner()));
+    out.stallers_arrived_later = late.len();
+    out.staller_min_bytes_received = stallers.iter().chain(late.iter()).map(|s| s.end.bytes_received()).min().unwrap_or(0);
+    for c in direct.rec.calls() {
+        *out.adapter_calls.entry(c.call.name()).or_insert(0) += 1;
+    }
+    out.released = Some(Instant::now());
+    let logs = futures_util::future::join_all(stallers.into_iter().chain(late).map(release)).await;
+    for log in logs.into_iter().flatten() {
+        if log.finished_script {
+            out.scripted_reached_stage += 1;
+        }
+        out.keep_alives_left_unanswered += log.count("ConfKeepAliveOut");
+    }
+    for t in probe_tasks {
+        match t.await {
+            Ok(p) => out.probes.push(p),
+            Err(e) => out.inconclusive = Some(format!("a probe task failed: {e}")),
+        }
+    }
+    if listener_gone {
+        out.inconclusive = Some("Listener::listen had returned while the stallers were held (listener failed to start or died)".into());
+    }
+    direct.stop.cancel();
+    out
+}
+
+// ---------------------------------------------------------------------------------------------
+// generation
+
+fn protocol_points() -> Vec<Point> {
+    vec![
+        Point::NothingSent,
+        Point::HalfHandshake,
+        Point::StatusAfterHandshake,
+        Point::StatusHalfRequest,
+        Point::StatusBeforePing,
+        Point::LoginAfterHandshake,
+        Point::HalfLoginStart,
+        Point::AfterLoginStart,
+        Point::BeforeEncryptionResponse,
+        Point::InsideEncryptionResponse,
+        Point::AfterLoginSuccess,
+        Point::ConfigNoKeepAliveEcho,
+    ]
+}
+
+fn header_points_representative() -> Vec<Point> {
+    vec![
+        Point::BeforeHeader,
+        Point::InsideHeader { v2: false, cut: Cut::First(1) },
+        Point::InsideHeader { v2: false, cut: Cut::Half },
+        Point::InsideHeader { v2: false, cut: Cut::AllBut(1) },
+        Point::InsideHeader { v2: true, cut: Cut::First(1) },
+        Point::InsideHeader { v2: true, cut: Cut::First(8) },
+        Point::InsideHeader { v2: true, cut: Cut::AllBut(1) },
+        Point::HeaderDrip { v2: false, every_ms: 400 },
+    ]
+}
+
+fn make_case(rng: &mut Rng, proxy: bool, limiter: bool, k: usize, point: Point, long_keep_alive: bool, spread_ms: u64) -> Case {
+    // the first Keep Alive of a connection is due 16 s after it was accepted: in the thorough tier
+    // the keep-alive stallers are held until one has gone unanswered and a third probe follows it
+    let (hold_ms, probes_ms) = if long_keep_alive && point == Point::ConfigNoKeepAliveEcho { (19_500, vec![0, 4_400, 17_200]) } else { (HOLD_MS, vec![0, 4_400]) };
+    Case {
+        proxy,
+        limiter,
+        k,
+        point,
+        hold_ms,
+        probes_ms,
+        arrivals_from_ms: 3_500,
+        arrivals_every_ms: 250,
+        arrivals: 8,
+        start_delay_ms: rng.below(spread_ms.max(1)),
+        salt: rng.below(1 << 40),
+    }
+}
+
+fn generate(cli: &Cli) -> Vec<Vec<Case>> {
+    let mut rng = Rng::stream(cli.seed, 0xC16);
+    let thorough = cli.tier == Tier::Thorough;
+    let mut cases = vec![];
+    let mut flip = rng.bool();
+    let mut lim = |both: bool| -> Vec<bool> {
+        if both {
+            vec![false, true]
+        } else {
+            flip = !flip;
+            vec![flip]
+        }
+    };
+    if !thorough {
+        for p in header_points_representative() {
+            for k in [1usize, 8] {
+                for l in lim(false) {
+                    cases.push(make_case(&mut rng, true, l, k, p.clone(), false, 1_500));
+                }
+            }
+        }
+        for p in protocol_points() {
+            for proxy in [true, false] {
+                for l in lim(false) {
+                    cases.push(make_case(&mut rng, proxy, l, 8, p.clone(), false, 1_500));
+                }
+            }
+        }
+        return vec![cases];
+    }
+    // thorough: every strict prefix of both header versions with one staller …
+    for n in 1..=47usize {
+        for l in lim(false) {
+            cases.push(make_case(&mut rng, true, l, 1, Point::InsideHeader { v2: false, cut: Cut::First(n) }, true, 3_000));
+        }
+    }
+    for n in 1..=27usize {
+        for l in lim(false) {
+            cases.push(make_case(&mut rng, true, l, 1, Point::InsideHeader { v2: true, cut: Cut::First(n) }, true, 3_000));
+        }
+    }
+    // … the representative header points × K × limiter …
+    for p in header_points_representative() {
+        for k in [1usize, 8, 64] {
+            for l in lim(true) {
+                cases.push(make_case(&mut rng, true, l, k, p.clone(), true, 3_000));
+            }
+        }
+    }
+    // … and every protocol stall point × PROXY × limiter × K
+    for p in protocol_points() {
+        for proxy in [true, false] {
+            for k in [1usize, 8, 64] {
+                for l in lim(true) {
+                    cases.push(make_case(&mut rng, proxy, l, k, p.clone(), true, 3_000));
+                }
+            }
+        }
+    }
+    rng.shuffle(&mut cases);
+    // the long keep-alive cases go into the first wave together
+    cases.sort_by_key(|c| c.hold_ms != 19_500);
+    let waves = 3usize;
+    let per = cases.len().div_ceil(waves);
+    cases.chunks(per).map(|c| c.to_vec()).collect()
+}
+
+// ---------------------------------------------------------------------------------------------
+// judging
+
+fn judge(report: &mut Report, late: &LateLog, o: &CaseOutcome, latencies: &mut Vec<f64>, sample: bool) {
+    let key = o.case.key();
+    if let Some(why) = &o.inconclusive {
+        report.inconclusive(&format!("{key}: {why}"));
+        return;
+    }
+    report.eval(Some(&key));
+    report.count("stallers placed and held", (o.stallers_placed + o.stallers_arrived_later) as u64);
+    report.count("scripted stallers that reached their stall stage", o.scripted_reached_stage as u64);
+    report.count("keep alives left unanswered by stallers", o.keep_alives_left_unanswered as u64);
+    if sample {
+        report.sample(json!({"case": o.case, "observed": o.observed()}));
+    }
+    for p in &o.probes {
+        report.count("probes measured while stallers were held", 1);
+        if let Some(l) = p.latency() {
+            latencies.push(l.as_secs_f64() * 1000.0);
+        }
+        if p.served_within_bound() {
+            report.count("probes served within 3 s", 1);
+            continue;
+        }
+        if let Some(e) = &p.connect_error {
+            report.inconclusive(&format!("{key}: {} could not connect ({e}); no latency verdict", p.label));
+            continue;
+        }
+        let worst = late.worst_between(p.started, p.started + BOUND + Duration::from_millis(100));
+        if worst > BOUND / 2 {
+            report.inconclusive(&format!("{key}: harness was starved ({worst:?} late) while {} ran, timing verdict void", p.label));
+            continue;
+        }
+        let after_release = match (p.pong, o.released) {
+            (Some(pong), Some(r)) if pong >= r => format!("it was served {:.2} s after the stallers were released", pong.duration_since(r).as_secs_f64()),
+            (Some(pong), _) => format!("it was served after {:.2} s", pong.duration_since(p.started).as_secs_f64()),
+            (None, _) => "it was not served even 3 s after the stallers were released".to_string(),
+        };
+        report.violation(
+            &format!("probe-delayed/proxy-{}/{}", onoff(o.case.proxy), o.case.point.class(o.case.proxy)),
+            &format!(
+                "a well-behaved client's status exchange did not complete within 3 s while {} staller(s) were held at '{}' (PROXY protocol {}, rate limiter {}): {after_release}",
+                o.case.k,
+                o.case.point.name(),
+                onoff(o.case.proxy),
+                onoff(o.case.limiter)
+            ),
+            json!({"case": o.case, "observed": o.observed(), "expected": "every probe's Status Response and Pong within 3 s of its connect(), whatever the stallers do", "replay": "vp-net --prop C16 --replay <this file>"}),
+        );
+    }
+}
+
+async fn run(cli: &Cli, report: &mut Report) {
+    let late = LateLog::start(Duration::from_millis(20));
+    let waves: Vec<Vec<Case>> = if let Some(path) = &cli.replay {
+        let case = std::fs::read_to_string(path).ok().and_then(|t| serde_json::from_str::<Value>(&t).ok()).and_then(|v| serde_json::from_value::<Case>(v["witness"]["case"].clone()).ok());
+        match case {
+            Some(mut c) => {
+                c.start_delay_ms = 0;
+                vec![vec![c]]
+            }
+            None => {
+                report.inconclusive_fatal("the replay file holds no C16 case");
+                return;
+            }
+        }
+    } else {
+        generate(cli)
+    };
+    let mut latencies: Vec<f64> = vec![];
+    let mut n = 0usize;
+    for wave in waves {
+        let tasks: Vec<JoinHandle<CaseOutcome>> = wave.into_iter().map(|c| tokio::spawn(run_case(c))).collect();
+        for t in tasks {
+            match t.await {
+                Ok(o) => {
+                    // write out a few different shapes
+                    let sample = n % 9 == 0 || matches!(o.case.point, Point::ConfigNoKeepAliveEcho) && n % 2 == 0;
+                    judge(report, &late, &o, &mut latencies, sample);
+                    n += 1;
+                }
+                Err(e) => report.inconclusive(&format!("a case task failed: {e}")),
+            }
+        }
+    }
+    latencies.sort_by(|a, b| a.partial_cmp(b).unwrap_or(std::cmp::Ordering::Equal));
+    if !latencies.is_empty() {
+        let q = |f: f64| latencies[((latencies.len() - 1) as f64 * f) as usize];
+        report.set("probe_latency_ms", json!({"served_probes": latencies.len(), "median": q(0.5), "p99": q(0.99), "max": q(1.0)}));
+    }
+    report.set("worst_scheduler_lateness_ms", json!(late.worst().as_millis() as u64));
+}
 
 pub async fn run_prop(cli: &Cli) -> i32 {
-    println!("[{}] INCONCLUSIVE: monitor not built yet", cli.prop);
-    2
+    let mut report = Report::new(
+        cli,
+        "fault_enumeration",
+        "per case one Listener (recording adapters, connection timeout 30 s) on loopback TCP; K ∈ {1, 8, 64 (thorough)} clients stop at one stall point — before the PROXY header, after a strict prefix of a v1/v2 header (thorough: every prefix), header dripped bytewise, after the header, half a Handshake, after the Handshake, inside/after the Status Request, half a Login Start, after Login Start, before/inside the Encryption Response, Login Success unacknowledged, configuration phase never echoing Keep Alives on a backend that never answers — and are held for 12 s (19.5 s for the keep-alive point in thorough) while 8 more arrive; PROXY on/off × rate limiter on/off (limit never reached); a probe status exchange starts when the stallers are in place and another while more arrive; distinct = (PROXY, limiter, K, stall point)",
+    );
+    report.set_max_samples(8);
+    report.assume("a probe is judged only by the 3 s bound on its whole status exchange (connect to Pong); a control probe before any staller must have been served, otherwise the case is inconclusive");
+    report.assume("scheduler lateness above 1.5 s (half the bound) during a probe voids that probe's verdict (inconclusive)");
+    report.assume("the first Keep Alive is due 16 s after a connection was accepted; quick-tier keep-alive stallers are released before it, thorough-tier ones leave one unanswered");
+    run(cli, &mut report).await;
+    report.finish()
 }
